@@ -18,10 +18,11 @@ def classify : Resp → Except Exc Bytes
   | .readErr => .error .dongleComm
   | .other => .error .dongleError
 
-/-- one exchange: emits the APDU, consumes one script entry -/
+/-- one exchange: emits the APDU, consumes one script entry.  An exhausted script behaves
+    as a device that fails every further exchange with an unexpected exception. -/
 def exchange (apdu : Bytes) : M Bytes := fun w =>
   match w.script with
-  | [] => ⟨.error .scriptEnd, [.apdu apdu], w⟩
+  | [] => ⟨.error .dongleError, [.apdu apdu], w⟩
   | r :: rest => ⟨classify r, [.apdu apdu], { w with script := rest }⟩
 
 def CLA : UInt8 := 0x80
